@@ -17,6 +17,10 @@ with `unrecognised shape`.  Normalisations done here (each keeps the Python mean
                                  (range() evaluates its bounds once; `continue` in B goes to the next test, `break` skips E)
   raise ValueError(<anything>) [from None]   -> SRaise ValueError   (messages are not part of C17)
   return                      -> return None
+  k in self._links / k not in self._links / self._links[k]   -> ELinksHas / ENot ELinksHas / ELinksIndex
+  a, *m, z = e                -> SUnpackStar
+  t = helper(args)            -> SCall with the translated body of `helper`, a function defined at module level in the same
+                                 file (not recursive, positional parameters only); its locals get slots of their own
 """
 import ast
 import inspect
@@ -46,10 +50,17 @@ def strip_doc(body):
     return body
 
 
+def is_self_links(e):
+    return (isinstance(e, ast.Attribute) and e.attr == '_links' and isinstance(e.value, ast.Name) and e.value.id == 'self')
+
+
 class Function:
-    def __init__(self, fn, tag, skip_self):
+    def __init__(self, fn, tag, skip_self, module_funcs=None, depth=0):
         self.fn = fn
         self.tag = tag
+        self.module_funcs = module_funcs or {}
+        self.depth = depth
+        self.callees = []                   # translated helpers (Function objects), in call order
         self.vars = {}
         self.hidden = 0
         a = fn.args
@@ -111,6 +122,11 @@ class Function:
             if len(e.ops) != 1:
                 bad('chained comparison', e)
             op, l, r = e.ops[0], e.left, e.comparators[0]
+            if isinstance(op, (ast.In, ast.NotIn)):
+                if not is_self_links(r):
+                    bad('in / not in something other than self._links', e)
+                t = 'ELinksHas (%s)' % self.expr(l)
+                return t if isinstance(op, ast.In) else 'ENot (%s)' % t
             if isinstance(op, (ast.Is, ast.IsNot)):
                 if not (isinstance(r, ast.Constant) and r.value is None):
                     bad('is / is not with something other than None', e)
@@ -118,6 +134,10 @@ class Function:
             if type(op) in CMP:
                 return 'ECmp %s (%s) (%s)' % (CMP[type(op)], self.expr(l), self.expr(r))
             bad('comparison operator', e)
+        if isinstance(e, ast.Subscript) and is_self_links(e.value):
+            if isinstance(e.slice, ast.Slice):
+                bad('slice of self._links', e)
+            return 'ELinksIndex (%s)' % self.expr(e.slice)
         if isinstance(e, ast.Subscript):
             if isinstance(e.slice, ast.Slice):
                 if e.slice.step is not None:
@@ -184,12 +204,64 @@ class Function:
             return [EXN[t.id]]
         bad('except clause class', t)
 
+    def star_split(self, target, node):
+        """a, *m, z  ->  ([a], m, [z]) or None when the target has no starred name"""
+        if not isinstance(target, (ast.Tuple, ast.List)):
+            return None
+        stars = [i for i, x in enumerate(target.elts) if isinstance(x, ast.Starred)]
+        if not stars:
+            return None
+        if len(stars) != 1 or not isinstance(target.elts[stars[0]].value, ast.Name):
+            bad('starred assignment target', node)
+        i = stars[0]
+        others = target.elts[:i] + target.elts[i + 1:]
+        if not all(isinstance(x, ast.Name) for x in others):
+            bad('starred assignment target', node)
+        return ([self.local(x.id, node) for x in target.elts[:i]], self.local(target.elts[i].value.id, node),
+                [self.local(x.id, node) for x in target.elts[i + 1:]])
+
     def assign_to(self, target, value_text, node):
         if isinstance(target, ast.Name):
             return 'SAssign %s (%s)' % (self.local(target.id, node), value_text)
-        if isinstance(target, ast.Tuple) and all(isinstance(x, ast.Name) for x in target.elts):
+        st = self.star_split(target, node)
+        if st is not None:
+            return 'SUnpackStar [%s] %s [%s] (%s)' % ('; '.join(st[0]), st[1], '; '.join(st[2]), value_text)
+        if isinstance(target, (ast.Tuple, ast.List)) and all(isinstance(x, ast.Name) for x in target.elts):
             return 'SUnpack [%s] (%s)' % ('; '.join(self.local(x.id, node) for x in target.elts), value_text)
         bad('assignment target', node)
+
+    def helper_call(self, target, call, node):
+        """target = helper(args) for a module level helper of the same file"""
+        name = call.func.id
+        fn = self.module_funcs[name]
+        if self.depth >= 2 or name == self.fn.name:
+            bad('nested / recursive helper call', node)
+        if call.keywords or any(isinstance(a, ast.Starred) for a in call.args):
+            bad('helper call arguments', node)
+        callee = Function(fn, '%s_%s' % (self.tag, name.lstrip('_')), skip_self=False, module_funcs=self.module_funcs,
+                          depth=self.depth + 1)
+        if fn.decorator_list or len(callee.params) != len(call.args):
+            bad('helper %s: decorators / arity' % name, node)
+        body = callee.block(strip_doc(fn.body))
+        self.callees.append(callee)
+        if isinstance(target, ast.Name):
+            t = 'TVar %s' % self.local(target.id, node)
+        else:
+            st = self.star_split(target, node)
+            if st is not None:
+                t = 'TStar [%s] %s [%s]' % ('; '.join(st[0]), st[1], '; '.join(st[2]))
+            elif isinstance(target, (ast.Tuple, ast.List)) and all(isinstance(x, ast.Name) for x in target.elts):
+                t = 'TTuple [%s]' % '; '.join(self.local(x.id, node) for x in target.elts)
+            else:
+                bad('assignment target', node)
+        callee.nlocals_text = '%d%%nat' % len(callee.vars)
+        return 'SCall (%s) (%d%%nat) [%s] [%s] (%s)' % (
+            t, len(callee.vars), '; '.join('v_%s_%s' % (callee.tag, p_) for p_ in callee.params),
+            '; '.join(self.expr(a) for a in call.args), body)
+
+    def is_helper_call(self, v):
+        return (isinstance(v, ast.Call) and isinstance(v.func, ast.Name) and v.func.id in self.module_funcs
+                and v.func.id not in ('int', 'len', 'range'))
 
     def stmt(self, s):
         if isinstance(s, ast.Pass):
@@ -201,10 +273,14 @@ class Function:
         if isinstance(s, ast.Assign):
             if len(s.targets) != 1:
                 bad('chained assignment', s)
+            if self.is_helper_call(s.value):
+                return self.helper_call(s.targets[0], s.value, s)
             return self.assign_to(s.targets[0], self.expr(s.value), s)
         if isinstance(s, ast.AnnAssign):
             if s.value is None:
                 return None
+            if self.is_helper_call(s.value):
+                return self.helper_call(s.target, s.value, s)
             return self.assign_to(s.target, self.expr(s.value), s)
         if isinstance(s, ast.AugAssign):
             if not isinstance(s.target, ast.Name) or not isinstance(s.op, (ast.Add, ast.Sub)):
@@ -269,11 +345,18 @@ class Function:
             return 'SReturn (%s)' % ('ENone' if s.value is None else self.expr(s.value))
         bad('statement %s' % type(s).__name__, s)
 
-    def emit(self, name):
-        body = self.block(strip_doc(self.fn.body))
-        lines = ['(* locals of %s *)' % self.fn.name]
+    def var_defs(self):
+        lines = []
+        for c in self.callees:
+            lines += c.var_defs()
+        lines.append('(* locals of %s *)' % self.fn.name)
         for py, i in self.vars.items():
             lines.append('Definition v_%s_%s : var := %d%%nat.' % (self.tag, py, i))
+        return lines
+
+    def emit(self, name):
+        body = self.block(strip_doc(self.fn.body))
+        lines = self.var_defs()
         lines.append('Definition %s : fn_code :=' % name)
         lines.append('  {| f_locals := %d%%nat; f_params := [%s]; f_body :=' % (
             len(self.vars), '; '.join('v_%s_%s' % (self.tag, p) for p in self.params)))
@@ -297,8 +380,9 @@ def generate() -> dict:
         bad('SphinxInventory.getLink not found exactly once')
     if fns[0].decorator_list or gl[0].decorator_list:
         bad('decorated function')
-    p = Function(fns[0], 'parse', skip_self=False)
-    g = Function(gl[0], 'getlink', skip_self=True)
+    module_funcs = {n.name: n for n in tree.body if isinstance(n, ast.FunctionDef)}
+    p = Function(fns[0], 'parse', skip_self=False, module_funcs=module_funcs)
+    g = Function(gl[0], 'getlink', skip_self=True, module_funcs=module_funcs)
     if len(p.params) != 1 or len(g.params) != 1:
         bad('parameters of _parseInventoryLine(line) / getLink(self, name)')
     lines = ['From Coq Require Import ZArith NArith List.', 'Import ListNotations.',
